@@ -73,6 +73,9 @@ def expr_core(work):
     vte.rules["L18:member-template operator()->free function template"] = 1
     vte.sub("L1:if constexpr", r"if constexpr \(", "if (", required=True)
     vte.sub("L6:std::is_same_v<T1, T2>->verif_same_type(a, b)", r"std::is_same_v<T1, T2>", "verif_same_type(a, b)", required=True)
+    for trait in ("arithmetic", "integral", "floating_point", "enum"):
+        vte.sub("L6:std::is_%s_v<T>->verif_is_%s(value)" % (trait, trait), r"std::is_%s_v<T1>" % trait, "verif_is_%s(a)" % trait)
+        vte.sub("L6:std::is_%s_v<T>->verif_is_%s(value)" % (trait, trait), r"std::is_%s_v<T2>" % trait, "verif_is_%s(b)" % trait)
     write(work, "expr_value_eq.inc", vte.text)
     slices.append(vte)
     # --- functions
